@@ -1,21 +1,29 @@
 """C01 — Programs the type checker accepts never crash the interpreter."""
 import json
+import re
 import vlib
 from checks import mini_gen, mini_common
 
 META = {
     "property_id": "C01",
-    "technique": "Lean 4 type-soundness proof for the MiniElk expression fragment (sound_A: well-typed => never stuck) tied to the real checker by verdict correspondence, + crash search over generated well-typed programs run on the real VM",
-    "level_text": "Partial. Theorem (Props/C01.lean): for the expression fragment of MiniElk, the model type checker's "
-                  "acceptance implies the reference evaluator never reaches `stuck` (the model's rendering of a Go panic "
-                  "on a wrong-kind operand), yields values of the static type and raises only ZeroDivisionError — all "
-                  "environments, stores, fuels. Tie: every expression the model checker accepts must be accepted by the "
-                  "real checker and evaluate to the reference value. Beyond the fragment (statements, closures, "
-                  "exceptions, generators, async, recursion) there is no theorem: generated programs that the real "
-                  "checker accepts are run and any Go panic / fatal error / hang is reported with the program.",
-    "level_note": "Trusted: Lean kernel; MiniElk decoder/printer/generator. Soundness stages B-D (narrowing, methods, "
-                  "closures) are not proved. Std-library calls are exercised by C28's sweep, sync primitives by C25. "
-                  "Known finding: unchecked operand-stack pushes overrun the value stack (design-level).",
+    "technique": "Lean 4 type-soundness proof for MiniElk (expressions, statements, labelled loops, exceptions with finally, "
+                 "methods with recursion, closures over store cells): checkProg accepts => the reference evaluator never "
+                 "reaches `stuck`, for every fuel; tied to the real checker and VM by verdict and output correspondence on "
+                 "generated and type-mutated programs, + crash search over every program the real checker accepts",
+    "level_text": "Theorems (Props/C01.lean stage A, Props/C01B.lean stages B-D; fuel induction over the five mutually "
+                  "recursive evaluator functions with a store typing that only grows): for every program p and every "
+                  "fuel, checkProg k p = true implies runProg never yields `stuck` (the model's rendering of a Go panic on "
+                  "a wrong-kind operand), break/continue/return never escape, every cell always holds a value of its "
+                  "declared type (preservation, C02), a call returns a value of the static return type (call_sound, "
+                  "closure_call_sound). Ties checked on every run: (1) model checker accepts => real checker accepts, on "
+                  "generated and on type-mutated programs; (2) the share of accepted generated programs inside the "
+                  "theorem's premise is measured (>= 80% required); (3) reference evaluator = real VM on stdout and "
+                  "outcome (C13/C14 run the same comparison); (4) every program the real checker accepts, in or outside "
+                  "the fragment, is run and any Go panic / fatal error / hang is reported with the minimised program.",
+    "level_note": "Trusted: Lean kernel; MiniElk decoder/printer/generator; the hand-written checker checkProg mirrors the "
+                  "real checker only on the fragment (no generics, unions beyond T?, classes, generators, async). Outside "
+                  "the fragment there is no theorem, only the search; std-library calls are exercised by C28's sweep, sync "
+                  "primitives by C25. Known finding: unchecked operand-stack pushes overrun the value stack (design-level).",
     "design_ref": "DESIGN.md §6, §7 C01",
 }
 
@@ -62,6 +70,25 @@ def gen_expr(r, d):
     return f"(nilco {gen_expr(r, d - 1)} {gen_expr(r, d - 1)})"
 
 
+_LIT = re.compile(r"\((int -?\d+|bool (?:true|false)|str \"[^\"]*\"|nil|var \w+)\)")
+
+
+def mutate(rng, sx, tag):
+    """a copy of the program with 1-2 atoms replaced by atoms of another type (usually ill-typed): the real checker
+    should reject it; when it accepts, the program is run like any other accepted program"""
+    ms = list(_LIT.finditer(sx))
+    if not ms:
+        return None
+    names = sorted({m.group(1)[4:] for m in ms if m.group(1).startswith("var ")})
+    out = sx
+    for m in sorted(rng.sample(ms, min(len(ms), rng.choice([1, 1, 2]))), key=lambda m: -m.start()):
+        cur = m.group(1)
+        pool = ['int 3', 'bool true', 'str "m"', 'nil'] + (["var " + rng.choice(names)] if names else [])
+        pool = [x for x in pool if x.split(" ")[0] != cur.split(" ")[0] or x.startswith("var ")]
+        out = out[:m.start()] + "(" + rng.choice(pool) + ")" + out[m.end():]
+    return re.sub(r"^\(prog (\w+) ", lambda m: "(prog %sm%s " % (m.group(1), tag), out)
+
+
 def expr_tie(ctx):
     """model checker accepts => real checker accepts and the value equals the reference value"""
     n = ctx.n(400, 6000)
@@ -81,13 +108,48 @@ def expr_tie(ctx):
         ctx.case(("expr", r["src"]), sample={"program": r["src"][-200:], "reference": r["model_out"]})
 
 
+def checker_tie(ctx, sexprs, srcs, res, verdicts):
+    """ties the model's program checker (the premise of sound_B/sound_C/prog_sound) to the real one:
+    model accepts => real accepts (obligation); real accepts => model accepts is measured (the share of the accepted
+    programs that are inside the theorem's premise)"""
+    tie_ok, reported, both, real_only = True, 0, 0, 0
+    for sx, src, a, v in zip(sexprs, srcs, res, verdicts):
+        if sx is None:
+            continue
+        mut = bool(re.match(r"^\(prog \w+m\d+ ", sx))
+        macc, racc = (v == "ok"), a["outcome"] != "rejected"
+        ctx.stat("checker-tie:%s:model-%s/real-%s" % ("mutated" if mut else "generated", "accepts" if macc else "rejects",
+                                                     "accepts" if racc else "rejects"))
+        if macc and racc:
+            both += 1
+        elif racc:
+            real_only += 1
+        elif macc:
+            if reported < 2:
+                reported += 1
+                diag = "; ".join(d["msg"].split("\n")[0] for d in a.get("diags", []) if d.get("sev") == "FAIL")[:300]
+                if ctx.violation("model-checker-accepts-real-rejects", {"program": src, "sexpr": sx, "correspondence": "checkProg"},
+                                 "the model's program checker (premise of sound_B/sound_C) accepts, the real checker rejects: " + diag,
+                                 no_input=True):
+                    tie_ok = False
+            else:
+                tie_ok = False
+    ctx.extra["theorem_premise_coverage"] = {"accepted_by_both": both, "accepted_by_real_checker_only": real_only}
+    ctx.obligation("model program checker accepts => real checker accepts (%d programs accepted by both)" % both, tie_ok,
+                   "correspondence")
+    ctx.obligation("at least 80%% of the generated programs the real checker accepts are inside the theorem's premise "
+                   "(accepted by checkProg): %d of %d" % (both, both + real_only), both * 5 >= (both + real_only) * 4,
+                   "correspondence")
+
+
 def run(ctx):
     ctx.rule = ("(a) expressions over typed locals accepted by the model type checker, run on both sides; "
                 "(b) generated well-typed MiniElk programs with every construct of the fragment (closures, labelled loops, "
                 "throw/catch/finally incl. abrupt exits from handlers and finally blocks, recursion depth 40); a case is a "
                 "program the real checker accepted; non-trivial = the program runs at least one call or loop; "
                 "violation = Go panic, fatal error or hang of the host")
-    ctx.prove("ElkVerif.Props.C01")
+    ctx.prove("ElkVerif.Props.C01B")      # imports Props.C01 (stage A); Audit/C01.lean lists both
+    verdicts = None
     if ctx.replay:
         inp = json.load(open(ctx.replay))["input"]
         reqs = [{"id": "r", "src": inp["program"], "timeout_ms": 8000}]
@@ -103,6 +165,15 @@ def run(ctx):
                 sexprs.append(g.program())
                 for f in g.features:
                     ctx.stat("feature:" + f)
+        # ill-typed stream: type-breaking mutations of generated programs (the real checker must reject them or they
+        # must run without a host crash)
+        base = [x for x in sexprs if x]
+        for i in range(ctx.n(150, 4000)):
+            m = mutate(ctx.rng, ctx.rng.choice(base), str(i))
+            if m is not None:
+                sexprs.append(m)
+                ctx.stat("stream:mutated")
+        verdicts = vlib.run_model(["mini\ttcb\t" + x for x in sexprs])
         mods = mini_common.model_eval(sexprs)
         srcs = [m[0] for m in mods]
         for kind, src in FINDING_PROGRAMS:
@@ -112,6 +183,8 @@ def run(ctx):
     res = vlib.run_programs(reqs)
     ok = True
     reported = 0
+    if verdicts is not None:
+        checker_tie(ctx, sexprs, srcs, res, verdicts)
     for sx, src, a in zip(sexprs, srcs, res):
         o = a["outcome"]
         ctx.stat("outcome:" + o)
